@@ -81,6 +81,7 @@ static void op_h5rt(int argc, char** a)
 	for (size_t i = 0; i < n; i++) {
 		s = s * 6364136223846793005ULL + 1442695040888963407ULL;
 		double v = 100.0 * sin((double)i * 0.07 + (double)(seed % 5)) + 3.0 * ((double)((s >> 33) % 1000) / 1000.0) + 500.0;
+		if ((seed & 0x10000) && i < n / 2) v = 77.0;      /* a masked / fill region: whole chunks of one value (tiny constant streams) */
 		if (ty == SZ_FLOAT) { float f = (float)v; memcpy(data + i * 4, &f, 4); v = f; }
 		else if (ty == SZ_DOUBLE) memcpy(data + i * 8, &v, 8);
 		else { if (es == 1) v = 60.0 + fmod(v, 60.0); uint64_t z = (uint64_t)v; memcpy(data + i * es, &z, es); v = (double)z; }
